@@ -592,7 +592,19 @@ namespace bloch::runtime {
         bool hasClasses = !program.classes.empty();
         if (hasClasses) {
             buildClassTable(program);
-            for (auto& kv : m_classTable) initStaticFields(kv.second.get());
+            // Static initialisers may have visible effects (they can call functions). Classes are
+            // initialised in name order - not in hash-table order, which follows the order of the
+            // declarations - so that reordering declarations cannot reorder those effects; an
+            // initialiser that reads another class's static still initialises that class first.
+            std::vector<std::string> classNames;
+            classNames.reserve(m_classTable.size());
+            for (auto& kv : m_classTable) classNames.push_back(kv.first);
+            std::sort(classNames.begin(), classNames.end());
+            for (const auto& name : classNames) {
+                auto it = m_classTable.find(name);
+                if (it != m_classTable.end())
+                    initStaticFields(it->second.get());
+            }
             ensureGcThread();
         }
         auto it = m_functions.find("main");
